@@ -87,3 +87,42 @@ def _(c):
               " %s._position >= old(%s._position))" % (STATE, STATE, STATE, STATE))
     c.ensures("gate-closed-nothing-happens", "implies(not old(" + GATE + "), result is None and same_heap('TPState'))")
     c.ensures("other-partitions-untouched", "forall(TPSTATE, lambda s: implies(s != %s, unchanged(s)))" % STATE)
+
+
+@contract(MOD + ":FetchResult.getall", ["C03", "C04", "C05"])
+def _(c):
+    """getmany(): everything the buffer holds (or max_records of it) in one go"""
+    c.self_("FetchResult")
+    c.param("max_records", Opt(INT), default="None")
+    c.returns(List(Ref("ConsumerRecordObj")))
+    c.local("ret_list", List(Ref("ConsumerRecordObj")))
+    c.requires("self._partition_records is not None", "result-not-exhausted")
+    c.modifies("self._partition_records", "TPState._position", "PartitionRecords.next_fetch_offset",
+               "PartitionRecords._aborted_transactions", "PartitionRecords._aborted_producers")
+    step = dict(NEXT_MODEL)
+    step["raises"] = ["Exception"]          # a corrupt batch, or whatever a user deserializer raises
+    step["note"] = "one step of iterating PartitionRecords (its generator _unpack_records, under contract): " + NEXT_MODEL["note"]
+    c.call("iter:self._partition_records", **step)
+    # C04: when iteration fails, the records unpacked so far are lost with the exception - so no position may have moved
+    c.raises("hand-out-failed", "Exception",
+             ensures=[("no-position-moves-for-records-that-were-not-handed-out", "same_heap('TPState')")])
+    POS0 = "old(%s._position)" % STATE
+    c.loop(0, header="for msg in self._partition_records", invariants=[
+        ("gate-was-open", "old(" + GATE + ")"),
+        ("buffer-kept-positions-untouched", "self._partition_records == old(self._partition_records) and same_heap('TPState')"
+         " and same_heap('Assignment') and self._assignment == old(self._assignment) and self._topic_partition == old(self._topic_partition)"),
+        ("collected-records-in-order-from-the-position",
+         "forall(lambda k: implies(0 <= k < len(ret_list), ret_list[k].g_offset >= %s"
+         " and ret_list[k].g_offset < self._partition_records.next_fetch_offset))"
+         " and forall(lambda j, k: implies(0 <= j < k < len(ret_list), ret_list[j].g_offset < ret_list[k].g_offset))" % POS0),
+        ("cursor-never-behind-the-position", "self._partition_records.next_fetch_offset >= " + POS0),
+    ])
+    c.ensures("returned-only-through-the-gate", "implies(len(result) > 0, old(" + GATE + "))")
+    c.ensures("gate-closed-nothing-happens", "implies(not old(" + GATE + "), len(result) == 0 and same_heap('TPState'))")
+    c.ensures("records-in-offset-order-from-the-position",
+              "forall(lambda k: implies(0 <= k < len(result), result[k].g_offset >= %s))"
+              " and forall(lambda j, k: implies(0 <= j < k < len(result), result[j].g_offset < result[k].g_offset))" % POS0)
+    c.ensures("position-past-every-returned-record-and-never-back",
+              "implies(old(" + GATE + "), %s._position is not None and %s._position >= %s"
+              " and forall(lambda k: implies(0 <= k < len(result), result[k].g_offset < %s._position)))" % (STATE, STATE, POS0, STATE))
+    c.ensures("other-partitions-untouched", "forall(TPSTATE, lambda s: implies(s != %s, unchanged(s)))" % STATE)
